@@ -486,6 +486,10 @@ func runRaw(p Plan) (res vh.Result) {
 		res.Inconclusive = "worker: " + err.Error()
 		return
 	}
+	if code == 4 && strings.Contains(stderr, "no free port") {
+		res.Inconclusive = "the worker found no free port for a minute (machine out of ephemeral ports)"
+		return
+	}
 	fs, classes := judge(&p, obs, stderr, code, timedOut)
 	res.Classes = classes
 	nKill := 0
